@@ -30,7 +30,33 @@
 #define VF_CHI 16
 #endif
 
+#if defined(__SANITIZE_ADDRESS__)
+#define VF_ASAN 1
+#elif defined(__has_feature)
+#if __has_feature(address_sanitizer)
+#define VF_ASAN 1
+#endif
+#endif
+
 namespace {
+
+// Plain build: the container sits between canaries (writes outside the object are seen). AddressSanitizer build: the container is a
+// heap object of its own, so that reads and writes outside it hit a redzone (canaries inside one struct would hide them from ASan).
+template <class T> struct Boxed {
+#ifdef VF_ASAN
+	T* p;
+	Boxed() : p(new T()) {}
+	~Boxed() { delete p; }
+	T& get() { return *p; }
+	bool intact() const { return true; }
+#else
+	struct G { uint8_t c0[16]; T v; uint8_t c1[16]; } g;
+	Boxed() { memset(g.c0, 0xA5, 16); memset(g.c1, 0x5A, 16); }
+	T& get() { return g.v; }
+	bool intact() const { for (int k = 0; k < 16; ++k) if (g.c0[k] != 0xA5 || g.c1[k] != 0x5A) return false; return true; }
+#endif
+	Boxed(const Boxed&) = delete;
+};
 
 using ffsm2::detail::BitArrayT;
 using ffsm2::detail::StaticArrayT;
@@ -67,19 +93,19 @@ std::string renderSeq(const char* what, const Seq& s) {
 // BitArrayT<C> vs std::vector<bool>.  kinds: 0 set(i) 1 clear(i) 2 get(i) 3 set() 4 clear() 5 empty() 6 &= other (other = bits given by a,b,c as pseudo-random mask seed)
 template <int C>
 bool runBitArray(const Seq& s, Fail& F, bool& nontrivial) {
-	struct Guarded { uint8_t c0[8]; BitArrayT<C> a; uint8_t c1[8]; } g;
-	memset(g.c0, 0xA5, 8); memset(g.c1, 0x5A, 8);
-	BitArrayT<C>& arr = g.a;
+	Boxed<BitArrayT<C>> box;
+	BitArrayT<C>& arr = box.get();
 	std::vector<bool> m(C, false);
 	bool setAllSeen = false, clearedAfterSetAll = false;
 	auto verify = [&](size_t step) {
 		bool none = true;
+		if (!box.intact()) { F.set(S("BitArrayT<%d>: wrote outside the object", C)); return; }
 		for (int i = 0; i < C; ++i) {
 			if (arr.get(i) != m[i]) { F.set(S("BitArrayT<%d>: after op %zu get(%d)=%d, model says %d", C, step, i, int(arr.get(i)), int(m[i]))); return; }
 			if (m[i]) none = false;
 		}
 		if (arr.empty() != none) F.set(S("BitArrayT<%d>: after op %zu empty()=%d but the model %s", C, step, int(arr.empty()), none ? "is empty" : "has members"));
-		for (int k = 0; k < 8; ++k) if (g.c0[k] != 0xA5 || g.c1[k] != 0x5A) F.set(S("BitArrayT<%d>: wrote outside the object", C));
+		if (!box.intact()) F.set(S("BitArrayT<%d>: wrote outside the object", C));
 	};
 	verify(0);
 	for (size_t k = 0; k < s.ops.size() && !F.failed; ++k) {
@@ -164,11 +190,26 @@ bool runStatic(const Seq& s, Fail& F, bool& nontrivial) {
 
 // ---------------------------------------------------------------------------------------------
 // DynamicArrayT<T,C> vs std::vector.  kinds: 0 emplace(v) 1 += v 2 [i] 3 clear 4 iterate 5 += other array (b elements) 6 write [i]
+// element type whose move is observably different from its copy (a moved-from element is hollowed out)
+struct Trk {
+	uint32_t v;
+	Trk() : v(0) {}
+	Trk(uint32_t x) : v(x) {}
+	Trk(const Trk& o) : v(o.v) {}
+	Trk(Trk&& o) noexcept : v(o.v) { o.v = 0xDEADBEEFu; }
+	Trk& operator=(const Trk& o) { v = o.v; return *this; }
+};
 template <int C>
 bool runDynamic(const Seq& s, Fail& F, bool& nontrivial) {
 	struct Item { uint32_t v; uint16_t w; };
 	DynamicArrayT<Item, C> arr;
 	std::vector<Item> m;
+	DynamicArrayT<Trk, C> tarr;
+	std::vector<uint32_t> tm;
+	auto verifyT = [&](size_t step) {
+		if (tarr.count() != tm.size()) { F.set(S("DynamicArrayT<Trk,%d>: after op %zu count()=%d, model %zu", C, step, int(tarr.count()), tm.size())); return; }
+		for (size_t i = 0; i < tm.size(); ++i) if (tarr[i].v != tm[i]) { F.set(S("DynamicArrayT<Trk,%d>: after op %zu element %zu holds %x, last stored %x (inserting a copy of an element must not disturb it)", C, step, i, tarr[i].v, tm[i])); return; }
+	};
 	bool reachedFull = false;
 	auto verify = [&](size_t step) {
 		if (arr.count() != m.size()) { F.set(S("DynamicArrayT<%d>: after op %zu count()=%d, model %zu", C, step, int(arr.count()), m.size())); return; }
@@ -183,6 +224,18 @@ bool runDynamic(const Seq& s, Fail& F, bool& nontrivial) {
 	for (size_t k = 0; k < s.ops.size() && !F.failed; ++k) {
 		const Op& o = s.ops[k];
 		const Item it{uint32_t(o.b) * 2246822519u + uint32_t(o.c), uint16_t(o.a)};
+		// tracked element type: copies of lvalues (also of elements of the array itself), moves of temporaries
+		{
+			const uint32_t tv = uint32_t(o.b) * 40503u + uint32_t(o.c) + 1u;
+			switch (o.kind % 5) {
+			case 0: if (tm.size() < size_t(C)) { Trk lv{tv}; tarr.emplace(lv); if (lv.v != tv) F.set(S("DynamicArrayT<Trk,%d>: emplace(lvalue) moved from its argument", C)); tm.push_back(tv); } break;
+			case 1: if (!tm.empty() && tm.size() < size_t(C)) { const size_t i = size_t(o.a) % tm.size(); tarr.emplace(tarr[i]); tm.push_back(tm[i]); } break;
+			case 2: if (!tm.empty() && tm.size() < size_t(C)) { const size_t i = size_t(o.a) % tm.size(); const DynamicArrayT<Trk, C>& ct = tarr; tarr += ct[i]; tm.push_back(tm[i]); } break;
+			case 3: if (tm.size() < size_t(C)) { tarr += Trk{tv}; tm.push_back(tv); } break;
+			case 4: if (o.c % 11 == 0) { tarr.clear(); tm.clear(); } else if (tm.size() < size_t(C)) { tarr.emplace(Trk{tv}); tm.push_back(tv); } break;
+			}
+			verifyT(k + 1);
+		}
 		switch (o.kind % 7) {
 		case 0: if (m.size() < size_t(C)) { const auto idx = arr.emplace(it.v, it.w); if (size_t(idx) != m.size()) F.set(S("DynamicArrayT<%d>: emplace returned %d, expected %zu", C, int(idx), m.size())); m.push_back(it); } break;
 		case 1: if (m.size() < size_t(C)) { arr += it; m.push_back(it); } break;
@@ -212,11 +265,8 @@ struct P44 { alignas(4) uint8_t b[4]; };
 template <int C, class PAY>
 bool runTaskList(const Seq& s, Fail& F, bool& nontrivial) {
 	using List = TaskListT<PAY, C>;
-	struct Guarded { uint8_t c0[16]; List l; uint8_t c1[16]; };
-	static Guarded g;
-	memset(g.c0, 0xA5, 16); memset(g.c1, 0x5A, 16);
-	new (&g.l) List();
-	List& list = g.l;
+	Boxed<List> box;
+	List& list = box.get();
 	struct T { uint8_t o, d; bool hasPay; uint8_t seed; };
 	std::map<int, T> m;
 	bool wasFull = false, freedNonLifo = false, refilled = false; int lastEmplaced = -1, freedSinceFull = 0;
@@ -233,7 +283,7 @@ bool runTaskList(const Seq& s, Fail& F, bool& nontrivial) {
 		if (list.count() != m.size()) { F.set(S("TaskListT<%d>: after op %zu count()=%d, %zu occupied", C, step, int(list.count()), m.size())); return; }
 		if (list.empty() != m.empty()) { F.set(S("TaskListT<%d>: empty() wrong", C)); return; }
 		for (const auto& kv : m) { readBack(kv.first, kv.second, step); if (F.failed) return; }
-		for (int k = 0; k < 16; ++k) if (g.c0[k] != 0xA5 || g.c1[k] != 0x5A) { F.set(S("TaskListT<%d>: wrote outside the object", C)); return; }
+		if (!box.intact()) { F.set(S("TaskListT<%d>: wrote outside the object", C)); return; }
 	};
 	auto emplace = [&](const Op& o, size_t step) {
 		if (m.size() >= size_t(C)) return;   // a full list is flagged by the library (FFSM2_BREAK); the full case is exercised through Plan::change
@@ -302,9 +352,9 @@ uint32_t readW(ffsm2::detail::BitReadStreamT<C>& s, int w, std::index_sequence<W
 template <int C>
 bool runStream(const Seq& s, Fail& F, bool& nontrivial) {
 	using Buffer = ffsm2::detail::StreamBufferT<C>;
-	struct Guarded { uint8_t c0[8]; Buffer b; uint8_t c1[8]; } g;
-	memset(g.c0, 0xA5, 8); memset(g.c1, 0x5A, 8);
-	memset(static_cast<void*>(&g.b), 0xEE, sizeof g.b);
+	Boxed<Buffer> box;
+	struct { Buffer& b; } g{box.get()};
+	memset(static_cast<void*>(&g.b), 0xEE, sizeof(Buffer));
 	constexpr int BYTES = Buffer::BYTE_COUNT;
 	if (Buffer::BIT_CAPACITY != C || BYTES != (C + 7) / 8) { F.set(S("StreamBufferT<%d>: BYTE_COUNT=%d", C, BYTES)); return false; }
 	const int c0 = ((s.aux % C) + C) % C;
@@ -318,7 +368,7 @@ bool runStream(const Seq& s, Fail& F, bool& nontrivial) {
 	auto verify = [&](size_t step) {
 		if (int(ws.cursor()) != cursor) { F.set(S("stream<%d>: after field %zu cursor=%d, expected %d", C, step, int(ws.cursor()), cursor)); return; }
 		for (int k = 0; k < BYTES; ++k) if (g.b.data()[k] != modelBytes(k)) { F.set(S("stream<%d>: after field %zu byte %d = %02x, bit-vector model says %02x (start cursor %d)", C, step, k, g.b.data()[k], modelBytes(k), c0)); return; }
-		for (int k = 0; k < 8; ++k) if (g.c0[k] != 0xA5 || g.c1[k] != 0x5A) { F.set(S("stream<%d>: wrote outside the buffer", C)); return; }
+		if (!box.intact()) { F.set(S("stream<%d>: wrote outside the buffer", C)); return; }
 	};
 	verify(0);
 	for (size_t k = 0; k < s.ops.size() && !F.failed; ++k) {
